@@ -40,10 +40,25 @@ are not fresh):
   models.  What the block the value came from shows afterwards is the library's choice; it must only
   agree with itself (block.version / cl.versions[i] / cl.version = the version in that block's own
   heading line).  Keys ``handed-out-mutation.../mutated:<class of the mutated value>``.
+
+SIZE THRESHOLDS (case kind 'big') and HEADING key=value PAIRS BEYOND URGENCY ('cl' cases tagged ``wl``): the same
+oracle on texts whose heading / trailer / change items are LARGE - version digit runs of 18..10^4 digits (Python
+refuses int() <-> str beyond 4300 digits since 3.11), package names, distribution lists, urgency comments, key=value
+lists, maintainer names and e-mail addresses of 10^2..10^5 characters, change blocks of 10^2..2*10^4 lines, hundreds
+of blocks.  A 'big' case is COMPACT: a small base model plus ``grow`` recipes (``[block, field, [segment, ...]]``,
+segment = literal | [unit, count] | ['#', prefix, count, suffix] numbered) that ``expand_big`` turns into an ordinary
+model, which is then re-validated by the grammar check and judged like every other model in all nine input forms.
+Every accessor of what the heading carries is read separately (``deep_accessors``): block.version and its
+full_version / epoch / upstream_version / debian_revision, block.package, cl.version, cl.get_version(), cl.versions,
+cl.get_versions(), cl[i], cl.full_version / epoch / upstream_version / debian_revision / debian_version, cl.package /
+get_package(), cl.distributions / urgency / author / date - each must expose what was written and none may raise
+(keys ``accessor-raises/<accessor>/<Exc>``, ``attribute-differs/<accessor>``).  A big witness is shrunk by dropping
+recipes and bisecting every count (the message names the smallest count that still shows the mechanism).
 """
 import collections
 import datetime
 import io
+import math
 import re
 import warnings
 
@@ -73,7 +88,21 @@ RULE = ('Each case is a structured changelog model (1..5 blocks; package over [a
         'versions, get_versions(), initial_blank_lines) on a 1..4 block changelog in which 60% of the multi-block '
         'models repeat a version string, with a sibling object of the same text and 1..2 objects of other texts '
         '(85% sharing the version string) built before, and fresh objects of all those texts built after every '
-        'mutation.  A second-use case is non-trivial when at least one second use was judged / one mutation applied.')
+        'mutation.  A second-use case is non-trivial when at least one second use was judged / one mutation applied.  '
+        'SIZE class (kind "big", own random stream + a fixed matrix of ~600 cases, same for every seed and tier): a small '
+        'base model (1..3 blocks) in which 1..2 items are grown by a recipe - version digit runs of 18, 19, 20, 40, 400, '
+        '4299, 4300, 4301, 5000, 10000 (+-1, and log-uniform sizes in between) digits in the upstream part, the revision, '
+        'after an epoch, with leading zeros, in both parts, in first and non-first blocks, plus versions of 10^4 short '
+        'components; package names, single distribution names, distribution lists (10..20000 names), urgency comments, '
+        'key=value lists (1..5000 pairs, long keys, long values, all-digit values), maintainer names, e-mail addresses of '
+        '64..65537 (thorough 10^5) characters incl. all-digit and non-ASCII ones; change blocks of 100..10000 (thorough '
+        '20000) numbered lines with and without inner blank lines, single change lines of up to 10^5 characters; 50..1000 '
+        'blocks.  Every big case is non-trivial.  KEY=VALUE class (ordinary "cl" cases tagged wl=kv-matrix / kv-random): '
+        'a fixed matrix (every key of a 60-key vocabulary - team-upload, binary-only, source-only, qa-upload, X- / XS- / XB- / '
+        'XC- / XBS- / XSBC- extension keys, case variants, keys that look like urgency, digits, hyphens - x 4 heading layouts; '
+        'every value of a 40-value vocabulary under 3 keys; 1..8 pairs in several orders; with and without urgency comment; '
+        'every urgency) and seeded models with 1..6 pairs per heading drawn from the vocabulary, synthesised extension keys and '
+        'random keys/values.')
 ASSUMPTIONS = [
     'the generator + render() emit only texts of the deb-changelog(5) grammar quoted in the statement: single spaces in '
     'the header, lower-case "urgency" keyword, ", " between key=value items, two spaces before the date, empty '
@@ -113,6 +142,29 @@ ASSUMPTIONS = [
     'a finding of the ordinary kind made after this process mutated handed-out values is re-executed in a fresh '
     'interpreter (4 per shard); if it is clean there it is keyed depends-on-earlier-calls-in-this-process/<key> and the '
     'witness is the sequence (earlier mutating case, this case)',
+    'size class: deb-changelog(5) and the statement put no upper bound on the length of a package name, version, '
+    'distribution list, urgency comment, key=value list, maintainer name, e-mail address, change line, on the number of '
+    'change lines of a block or on the number of blocks; a big case is judged only if its expansion passes the same '
+    'independent grammar check as every other model (otherwise inconclusive, never violated); expansions are capped at '
+    '6e6 characters (harness budget, not a claim about the format)',
+    'size class: long digit runs are placed in the upstream version and the revision only - the epoch stays a small number '
+    '(dpkg refuses epochs above INT_MAX, so a long epoch is not a valid version); versions are still exactly the strings '
+    'vp.models.dpkgver.classify accepts',
+    'accessors: the decomposition expected from full_version / epoch / upstream_version / debian_revision (debian_version) is '
+    'the Policy 5.6.12 one (epoch before the first colon, revision after the last hyphen, None when absent) computed by '
+    'vp.models.dpkgver.split - what C14 establishes for debian_support.Version on the unchanged tree; Changelog-level '
+    'accessors (cl.version, get_version(), full_version, epoch, upstream_version, debian_revision, debian_version, package, '
+    'get_package(), distributions, urgency, author, date) are documented as shortcuts to the first block in file order and '
+    'are compared with that block of the model; cl[i] (integer) with the i-th block; look-ups by version string / Version '
+    '(equality of versions, not spelling) and hash() of a Version are NOT part of this class; bugs_closed / lp_bugs_closed '
+    '(int conversion of bug numbers) are not read',
+    'key=value class: exactly the grammar of the statement - urgency is the FIRST pair, further pairs follow after ", "; '
+    'keys over [A-Za-z0-9-], pairwise different ignoring case and different from "urgency"; values non-empty, comma-free, '
+    'no leading/trailing/double blank (may contain "=", ";", parentheses, non-ASCII); a heading without urgency or with '
+    'urgency in another position is outside the domain (the library re-writes it) and never generated; any warning of '
+    'any category during the strict parse is the violation parse-warns-on-wellformed (recorded with '
+    'warnings.catch_warnings(record=True) + simplefilter("always"), so neither the once-per-location registry nor the '
+    'ambient filters can hide one)',
 ]
 ANCHORS = ['debian.changelog:Changelog.parse_changelog',
            'debian.changelog:Changelog._format',
@@ -128,6 +180,8 @@ MUST_REACH = ['debian.changelog:Changelog.parse_changelog',
 TEXTS = {'quick': 16000, 'thorough': 600000}     # random models, total over all shards
 REUSE = {'quick': 3000, 'thorough': 100000}      # second-use histories (one object, several texts)
 HANDOUT = {'quick': 3000, 'thorough': 100000}    # caller-side mutation of handed-out values
+BIG = {'quick': 400, 'thorough': 30000}          # size class: random big cases (the fixed matrix comes on top)
+KVS = {'quick': 1600, 'thorough': 50000}         # heading key=value pairs beyond urgency: random models
 
 FLOORS = {
     # ~50% of what a run on the current tree measures (quick: 16353 ordinary cases; thorough: 600353);
@@ -639,10 +693,22 @@ def cases(ctx):
         if ctx.mine(i):
             c['matrix'] = 1
             yield c
+    for i, c in enumerate(kv_matrix()):
+        if ctx.mine(i):
+            yield c
+    for i, c in enumerate(big_matrix(ctx.tier == 'thorough')):
+        if ctx.mine(i):
+            yield c
     r = ctx.rng('models')
     rr = ctx.rng('reuse')
     rh = ctx.rng('handout')
+    rb = ctx.rng('big')
+    rk = ctx.rng('kv')
     wide = ctx.tier == 'thorough'
+    for _ in range(ctx.size(BIG['quick'], BIG['thorough'])):
+        yield gen_big(rb, wide)
+    for _ in range(ctx.size(KVS['quick'], KVS['thorough'])):
+        yield gen_kv_model(rk, wide or rk.random() < 0.3)
     n = ctx.size(TEXTS['quick'], TEXTS['thorough'])
     nr = ctx.size(REUSE['quick'], REUSE['thorough'])
     nh = ctx.size(HANDOUT['quick'], HANDOUT['thorough'])
@@ -714,7 +780,7 @@ def _r(x, n=300):
     return s if len(s) <= n else s[:n] + '...'
 
 
-def check_form(case, form, text, lines, classes, stats, input_lines=None):
+def check_form(case, form, text, lines, classes, stats, input_lines=None, deep=False):
     """Parse `text` in one input form and compare with the model.  Returns a list of (key, msg).
     `input_lines` (classifier use only) overrides how the text is cut into lines for the line-based forms."""
     from debian import changelog as dc
@@ -736,7 +802,7 @@ def check_form(case, form, text, lines, classes, stats, input_lines=None):
     if caught:
         out.append(('parse-warns-on-wellformed/' + classify_parse_error(str(caught[0].message)),
                     '[%s] strict parse warned: %s' % (form, _r(str(caught[0].message)))))
-    return out + judge_object(cl, case, form, text, lines, classes, stats)
+    return out + judge_object(cl, case, form, text, lines, classes, stats, deep=deep)
 
 
 def block_problems(b, g):
@@ -753,9 +819,107 @@ def block_problems(b, g):
     return [(name, w, have) for name, w, have in want if w != have]
 
 
-def judge_object(cl, case, form, text, lines, classes, stats):
+def _same(want, have):
+    """Equality that also demands the same kind of value (None stays None, text stays text)."""
+    if want is None or have is None:
+        return want is None and have is None
+    if isinstance(have, str):
+        return want == have
+    try:        # another type whose text is exactly what was written is not accused
+        return str(have) == want
+    except Exception:
+        return False
+
+
+def deep_accessors(cl, case, form, stats):
+    """Every accessor of what the headings (and the first trailer) carry, each read on its own: none may raise for a
+    text of the grammar and each must expose what was written.  Returns a list of (key, msg)."""
+    out = []
+    blocks = case['blocks']
+    if stats is not None:
+        stats['M.accessors'] += 1
+
+    def read(name, fn):
+        try:
+            return True, fn()
+        except Exception as e:
+            out.append(('accessor-raises/%s/%s' % (name, type(e).__name__),
+                        '[%s] reading %s of a well-formed changelog raised %s: %s' % (form, name, type(e).__name__, _r(str(e)))))
+            return False, None
+
+    def expect(name, want, have, conv=None):
+        if conv is not None and have is not None:
+            try:
+                have = conv(have)
+            except Exception as e:
+                out.append(('accessor-raises/str(%s)/%s' % (name, type(e).__name__),
+                            '[%s] str() of %s raised %s: %s' % (form, name, type(e).__name__, _r(str(e)))))
+                return
+        if not _same(want, have):
+            out.append(('attribute-differs/' + name, '[%s] %s: wrote %s, exposed %s' % (form, name, _r(want), _r(have))))
+
+    def decomposition(name, v, written):
+        ep, up, rev = dpkgver.split(written)
+        for attr, want in (('full_version', written), ('epoch', ep), ('upstream_version', up), ('debian_revision', rev)):
+            ok, have = read('%s.%s' % (name, attr), lambda: getattr(v, attr))
+            if ok:
+                expect('%s.%s' % (name, attr), want, have)
+
+    ok, got = read('iter(cl)', lambda: list(cl))
+    if not ok or len(got) != len(blocks):
+        return out          # the block count is judged by the caller
+    for i, (b, g) in enumerate(zip(blocks, got)):
+        ok, v = read('block.version', lambda: g.version)
+        if ok:
+            expect('block.version', b['v'], v, str)
+            if v is not None:
+                decomposition('block.version', v, b['v'])
+        ok, pkg = read('block.package', lambda: g.package)
+        if ok:
+            expect('block.package', b['p'], pkg)
+        ok, gi = read('cl[i]', lambda: cl[i])
+        if ok and gi is not g:
+            out.append(('attribute-differs/cl[i]', '[%s] cl[%d] is not the block number %d of the iteration' % (form, i, i)))
+    first = blocks[0]
+    for name, fn in (('cl.version', lambda: cl.version), ('cl.get_version()', lambda: cl.get_version())):
+        ok, v = read(name, fn)
+        if ok:
+            expect(name, first['v'], v, str)
+            if v is not None:
+                decomposition(name, v, first['v'])
+    for name, fn in (('cl.versions', lambda: cl.versions), ('cl.get_versions()', lambda: cl.get_versions())):
+        ok, vs = read(name, fn)
+        if ok:
+            try:
+                have = [str(x) for x in vs]
+            except Exception as e:
+                out.append(('accessor-raises/str(%s[i])/%s' % (name, type(e).__name__),
+                            '[%s] str() of an element of %s raised %s: %s' % (form, name, type(e).__name__, _r(str(e)))))
+                continue
+            if have != [b['v'] for b in blocks]:
+                out.append(('attribute-differs/' + name, '[%s] %s: wrote %s, exposed %s' % (form, name, _r([b['v'] for b in blocks]), _r(have))))
+    ep, up, rev = dpkgver.split(first['v'])
+    for name, want, fn in (('cl.full_version', first['v'], lambda: cl.full_version),
+                           ('cl.epoch', ep, lambda: cl.epoch),
+                           ('cl.upstream_version', up, lambda: cl.upstream_version),
+                           ('cl.debian_revision', rev, lambda: cl.debian_revision),
+                           ('cl.debian_version', rev, lambda: cl.debian_version),
+                           ('cl.package', first['p'], lambda: cl.package),
+                           ('cl.get_package()', first['p'], lambda: cl.get_package()),
+                           ('cl.distributions', ' '.join(first['d']), lambda: cl.distributions),
+                           ('cl.urgency', first['u'], lambda: cl.urgency),
+                           ('cl.author', '%s <%s>' % (first['n'], first['e']), lambda: cl.author),
+                           ('cl.date', first['dt'], lambda: cl.date)):
+        ok, have = read(name, fn)
+        if ok:
+            expect(name, want, have)
+    return out
+
+
+def judge_object(cl, case, form, text, lines, classes, stats, deep=False):
     """The boundary oracle on one live Changelog object that is supposed to hold exactly the model `case`
-    (text/lines/classes = render(case)).  `form` only labels the messages.  Returns a list of (key, msg)."""
+    (text/lines/classes = render(case)).  `form` only labels the messages.  Returns a list of (key, msg).
+    `deep`: additionally read every accessor of the heading items on its own (deep_accessors)."""
     out = []
     # -- byte-for-byte
     try:
@@ -792,6 +956,9 @@ def judge_object(cl, case, form, text, lines, classes, stats):
                 form, _r(cl.package), _r(str(cl.version)), _r(blocks[0]['p']), _r(blocks[0]['v']))))
     except Exception as e:
         out.append(('attribute-access-raises/' + type(e).__name__, '[%s] reading block attributes raised %s: %s' % (form, type(e).__name__, _r(str(e)))))
+    if deep:
+        have = set(k for k, _m in out)
+        out.extend((k, m) for k, m in deep_accessors(cl, case, form, stats) if k not in have)
     return out
 
 
@@ -800,17 +967,24 @@ def _unformed(res):
     return [(k, m.split('] ', 1)[-1]) for k, m in res]
 
 
-def evaluate(case, stats=None):
-    """Run one model through every requested input form.  Returns [(key, msg)] with one entry per key."""
+def evaluate(case, stats=None, mon=None, deep_forms=1):
+    """Run one model through every requested input form.  Returns [(key, msg)] with one entry per key.
+    The per-accessor sweep (deep_accessors) runs in `deep_forms` of the forms of a model (rotating with the text
+    length: what an accessor exposes should not depend on how the text came in; the sweep costs as much as the parse)."""
     text, lines, classes = render(case)
     forms = [case['form']] if case.get('form') else FORMS
     has_break = any(ch in text for ch in NON_LF_BREAKS)
+    if deep_forms == 1 and not case.get('wl') and len(text) % 3:
+        deep_forms = 0            # untagged ordinary models: a third of them is enough (cost)
+    deep_at = set((len(text) + k * 4) % len(forms) for k in range(deep_forms))
     found = {}
-    for form in forms:
+    for fi, form in enumerate(forms):
         if stats is not None:
             stats['M'] += 1
             stats['form:' + form] += 1
-        res = check_form(case, form, text, lines, classes, stats)
+            if mon:
+                stats[mon] += 1
+        res = check_form(case, form, text, lines, classes, stats, deep=fi in deep_at)
         if res and has_break and form in SPLITTING_FORMS:
             # mechanism test: the disagreement is "the library's own line splitting cut a change line at a
             # non-LF boundary" iff the result differs from what the very same text gives when handed over
@@ -1005,7 +1179,7 @@ def run_reuse(case, stats=None):
                 if caught:
                     res.append(('parse-warns-on-wellformed/' + classify_parse_error(str(caught[0].message)),
                                 '[%s] parse warned: %s' % (label, _r(str(caught[0].message)))))
-                res.extend(judge_object(objs[o], m, label, text, lines, classes, stats))
+                res.extend(judge_object(objs[o], m, label, text, lines, classes, stats, deep=True))
             if nth >= 1:
                 stats['M.reuse'] += 1
                 stats['reuse:second-use' if nth == 1 else 'reuse:third-or-later-use'] += 1
@@ -1033,7 +1207,7 @@ def run_reuse(case, stats=None):
                     except Exception:
                         ctl = None
                 if res:
-                    ctl_keys = set(k for k, _m in check_form(m, form, text, lines, classes, None))
+                    ctl_keys = set(k for k, _m in check_form(m, form, text, lines, classes, None, deep=True))
                     for k, msg in res:
                         if k in ctl_keys:
                             found.append((k, msg))
@@ -1296,10 +1470,10 @@ def run_handout(case, stats=None):
         base.append(('parse-warns-on-wellformed/' + classify_parse_error(str((w0 + w1)[0].message)),
                      '[handout baseline] strict parse warned: %s' % _r(str((w0 + w1)[0].message))))
     for lab, c, mm, (t, ls, cs) in pre:
-        rb = judge_object(c, mm, 'handout baseline ' + lab.strip('[] '), t, ls, cs, stats)
+        rb = judge_object(c, mm, 'handout baseline ' + lab.strip('[] '), t, ls, cs, stats, deep=True)
         if rb:
             # judged after ALL objects of the case were built: is it the parse, or did a later parse change it?
-            alone = set(k for k, _m in check_form(mm, 'str', t, ls, cs, None))
+            alone = set(k for k, _m in check_form(mm, 'str', t, ls, cs, None, deep=True))
             rb = [(k, msg) if k in alone else
                   ('earlier-object-changed-by-later-parse/' + k, msg + '  [several Changelog objects alive at the same '
                    'time; the same text parsed on its own is clean]') for k, msg in rb]
@@ -1479,6 +1653,8 @@ def case_problem(case):
         return reuse_problem(case)
     if kind == 'handout':
         return handout_problem(case)
+    if kind == 'big':
+        return big_problem(case)
     if kind == 'seq':
         if not (isinstance(case.get('cases'), list) and 1 <= len(case['cases']) <= 6):
             return 'seq'
@@ -1500,6 +1676,8 @@ def evaluate_any(case, stats=None):
         return run_reuse(case, stats)
     if kind == 'handout':
         return run_handout(case, stats)
+    if kind == 'big':
+        return run_big(case, stats)
     return run_seq(case, stats)
 
 
@@ -1728,6 +1906,619 @@ def handout_matrix():
 
 
 # ---------------------------------------------------------------------------
+# SIZE THRESHOLDS in what headings, trailers and change blocks carry (case kind 'big')
+#
+# case = {'kind': 'big', 'base': <small 'cl' model without form>, 'grow': [[block index, field, recipe], ...],
+#         'more': n (optional: n further small blocks appended), 'form': optional single input form, 'wl': tag}
+# recipe = [segment, ...];  segment = 'literal' | [unit, count] | ['#', prefix, count, suffix]
+#          (the last one is prefix + str(i) + suffix for i in range(count): numbered items make loss, duplication and
+#          re-ordering of the lines / names / pairs of a big item unambiguous)
+# The built text replaces the field: p v c n e as they are; d = text.split(' '); body = text.split('\n');
+# kv = [pair.split('=', 1) for pair in text.split(', ')].
+
+BIG_FIELDS = ('p', 'v', 'd', 'c', 'kv', 'body', 'n', 'e')
+BIG_MAX_CHARS = 6000000
+DIGIT_POINTS = (18, 19, 20, 40, 400, 4299, 4300, 4301, 5000, 10000)
+SIZE_POINTS = (64, 255, 256, 1000, 1024, 4096, 8192, 20000, 65536)
+SIZE_POINTS_RANDOM = (19, 20, 40, 64, 100, 255, 256, 257, 400, 1000, 1023, 1024, 1025, 2048, 4095, 4096, 4097, 4299, 4300,
+                      4301, 5000, 8191, 8192, 8193, 10000, 16384, 20000)
+SIZE_POINTS_WIDE = (32767, 32768, 65535, 65536, 65537, 100000)
+LINE_POINTS = (100, 255, 256, 1000, 1024, 2000, 4096, 5000)
+LINE_POINTS_WIDE = (10000, 20000)
+
+
+def _seg_size(seg):
+    if isinstance(seg, str):
+        return len(seg)
+    if len(seg) == 2:
+        return len(seg[0]) * seg[1]
+    return (len(seg[1]) + len(seg[3]) + len(str(max(0, seg[2] - 1)))) * seg[2]
+
+
+def recipe_problem(recipe):
+    if not (isinstance(recipe, list) and 1 <= len(recipe) <= 12):
+        return 'recipe'
+    for seg in recipe:
+        if isinstance(seg, str):
+            continue
+        if isinstance(seg, list) and len(seg) == 2 and isinstance(seg[0], str) and isinstance(seg[1], int) \
+                and not isinstance(seg[1], bool) and seg[1] >= 0:
+            continue
+        if isinstance(seg, list) and len(seg) == 4 and seg[0] == '#' and isinstance(seg[1], str) and isinstance(seg[3], str) \
+                and isinstance(seg[2], int) and not isinstance(seg[2], bool) and seg[2] >= 0:
+            continue
+        return 'recipe segment'
+    if sum(_seg_size(seg) for seg in recipe) > BIG_MAX_CHARS:
+        return 'recipe too large for the harness budget'
+    return None
+
+
+def build_recipe(recipe):
+    out = []
+    for seg in recipe:
+        if isinstance(seg, str):
+            out.append(seg)
+        elif len(seg) == 2:
+            out.append(seg[0] * seg[1])
+        else:
+            pre, n, post = seg[1], seg[2], seg[3]
+            out.append(''.join('%s%d%s' % (pre, i, post) for i in range(n)))
+    return ''.join(out)
+
+
+def expand_big(case):
+    """The ordinary 'cl' model a compact big case stands for."""
+    base = case['base']
+    blocks = [dict(b) for b in base['blocks']]
+    for blk, field, recipe in case['grow']:
+        text = build_recipe(recipe)
+        b = blocks[blk]
+        if field == 'd':
+            b['d'] = text.split(' ')
+        elif field == 'body':
+            b['body'] = text.split('\n')
+        elif field == 'kv':
+            b['kv'] = [pair.split('=', 1) for pair in text.split(', ')]
+        else:
+            b[field] = text
+    more = case.get('more', 0)
+    if more:
+        blocks[-1]['gap'] = blocks[-1].get('gap') or 1
+        for i in range(more):
+            blocks.append(dict(BASE, p='older', v='0.%d' % (more - i), gap=1, body=['', '  * older entry %d' % (more - i), '']))
+        blocks[-1]['gap'] = 0
+    m = {'kind': 'cl', 'lead': base.get('lead', 0), 'blocks': blocks}
+    if case.get('form'):
+        m['form'] = case['form']
+    return m
+
+
+def big_problem(case):
+    try:
+        if not _is_model(case['base']):
+            return 'base model outside the grammar'
+        if case.get('form') is not None and case['form'] not in FORMS:
+            return 'form'
+        more = case.get('more', 0)
+        if not (isinstance(more, int) and not isinstance(more, bool) and 0 <= more <= 5000):
+            return 'more'
+        grow = case['grow']
+        if not (isinstance(grow, list) and len(grow) <= 6 and (grow or more)):
+            return 'grow'
+        nb = len(case['base']['blocks'])
+        seen = set()
+        total = 0
+        for g in grow:
+            if not (isinstance(g, list) and len(g) == 3):
+                return 'grow entry'
+            blk, field, recipe = g
+            if not (isinstance(blk, int) and not isinstance(blk, bool) and 0 <= blk < nb) or field not in BIG_FIELDS:
+                return 'grow target'
+            if (blk, field) in seen:
+                return 'grow target twice'
+            seen.add((blk, field))
+            why = recipe_problem(recipe)
+            if why:
+                return why
+            total += sum(_seg_size(seg) for seg in recipe)
+        if total > BIG_MAX_CHARS:
+            return 'case too large for the harness budget'
+        return grammar_problem(expand_big(case))
+    except (KeyError, TypeError, ValueError, IndexError, AttributeError) as e:
+        return 'malformed big case (%s)' % type(e).__name__
+
+
+def _bucket(n):
+    for limit, name in ((100, '<100'), (1000, '100-999'), (4301, '1000-4300'), (20001, '4301-20000')):
+        if n < limit:
+            return name
+    return '>20000'
+
+
+def _digit_bucket(n):
+    for limit, name in ((19, '<=18'), (41, '19-40'), (401, '41-400'), (4301, '401-4300')):
+        if n < limit:
+            return name
+    return '>4300'
+
+
+_DIGITS = re.compile(r'[0-9]+')
+
+
+def longest_digit_run(s):
+    return max([len(x) for x in _DIGITS.findall(s)] or [0])
+
+
+def note_big(stats, case, m):
+    stats['big:case'] += 1
+    if case.get('more'):
+        stats['big:blocks:' + _bucket(len(m['blocks']))] += 1
+    for blk, field, _recipe in case['grow']:
+        b = m['blocks'][blk]
+        where = 'first-block' if blk == 0 else 'later-block'
+        if field == 'v':
+            ep, up, rev = dpkgver.split(b['v'])
+            n = longest_digit_run(b['v'])
+            stats['big:version-digit-run:%s' % _digit_bucket(n)] += 1
+            stats['big:version-digit-run:%s:%s' % (_digit_bucket(n), where)] += 1
+            if longest_digit_run(up) > 18:
+                stats['big:version-digit-run-in:upstream'] += 1
+            if rev is not None and longest_digit_run(rev) > 18:
+                stats['big:version-digit-run-in:revision'] += 1
+            if ep is not None and n > 18:
+                stats['big:version-digit-run-with-epoch'] += 1
+            if n <= 18:
+                stats['big:version-long-without-long-run'] += 1
+            stats['big:size:v:' + _bucket(len(b['v']))] += 1
+        elif field == 'd':
+            stats['big:size:d:chars:' + _bucket(len(' '.join(b['d'])))] += 1
+            stats['big:size:d:names:' + _bucket(len(b['d']))] += 1
+        elif field == 'kv':
+            stats['big:size:kv:chars:' + _bucket(sum(len(k) + len(v) + 3 for k, v in b['kv']))] += 1
+            stats['big:size:kv:pairs:' + _bucket(len(b['kv']))] += 1
+        elif field == 'body':
+            stats['big:size:body:lines:' + _bucket(len(b['body']))] += 1
+            stats['big:size:body:longest-line:' + _bucket(max(len(l) for l in b['body']))] += 1
+        else:
+            stats['big:size:%s:%s' % (field, _bucket(len(b[field])))] += 1
+            if field in ('p', 'c', 'n', 'e') and longest_digit_run(b[field]) > 4300:
+                stats['big:digit-run>4300-in:' + field] += 1
+
+
+def run_big(case, stats=None):
+    if stats is None:
+        stats = collections.Counter()
+    m = expand_big(case)
+    note_big(stats, case, m)
+    return evaluate(m, stats, mon='M.big', deep_forms=2)
+
+
+def _one(field, recipe, blk=0, base=None, more=0, wl='big-matrix'):
+    c = {'kind': 'big', 'base': base or {'kind': 'cl', 'lead': 0, 'blocks': [dict(BASE)]},
+         'grow': [[blk, field, recipe]], 'wl': wl}
+    if more:
+        c['more'] = more
+    return c
+
+
+def version_recipes(n):
+    """Valid versions carrying a run of n digits (or n short components) at the places a version can have one."""
+    return [['1.', ['7', n]],                              # upstream, after a dot
+            [['7', n]],                                    # the whole version is one number
+            ['1.0-', ['7', n]],                            # revision
+            ['2:', ['7', n], '-1'],                        # upstream after an epoch
+            ['1.', ['0', n], '5'],                         # leading zeros (the number itself is 5)
+            ['1.', ['0', n]],                              # the number zero, n digits long
+            ['1.', ['7', n], '-', ['3', n]],               # upstream and revision
+            ['1.', ['7', n], '~rc1+b', ['9', n]],          # two runs in the upstream part
+            ['0.', ['12345678.', max(1, n // 9)], '0'],    # long version, no long run
+            ['1', ['.1', n]],                              # n short components
+            ['3:1.', ['90', (n + 1) // 2], '+dfsg-0ubuntu', ['4', n], '~bpo1']]
+
+
+HUGE_POINTS = (262144, 1048577)       # thorough only
+HUGE_LINES = (65536, 100000)          # thorough only
+
+
+def big_matrix(wide=False):
+    """Fixed size cases (same for every seed; the thorough tier adds the HUGE sizes at the end)."""
+    out = []
+    two = {'kind': 'cl', 'lead': 1, 'blocks': [dict(BASE, v='2.0-1', gap=1, body=['', '  * newer', '']),
+                                               dict(BASE, d=['stable'], u='HIGH', n='Zoë Q. X', body=['', '  * older', ''])]}
+    for n in DIGIT_POINTS:
+        for t, rec in enumerate(version_recipes(n)):
+            out.append(_one('v', rec))
+            # the same version in the second of two blocks (cl.versions / iteration reach it, cl.version does not),
+            # and in the first of two
+            out.append(_one('v', rec, blk=(t + n) % 2, base=two))
+    for n in SIZE_POINTS:
+        out.append(_one('p', ['a', ['b', n - 1]]))
+        out.append(_one('p', ['lib', ['x-y+z.', n // 6], '0']))
+        out.append(_one('p', [['7', n]]))
+        out.append(_one('d', [['u', n]]))
+        out.append(_one('d', [['A.b-c+', n // 6], '9']))
+        out.append(_one('c', ['(', ['x', n], ')']))
+        out.append(_one('c', ['(', ['word ', n // 5], 'end)']))
+        out.append(_one('c', [['7', n]]))
+        out.append(_one('c', ['(see #', ['7', n], ': urgent; a=b)']))
+        out.append(_one('kv', ['binary-only=', ['y', n]]))
+        out.append(_one('kv', ['x-count=', ['7', n], ', team-upload=yes']))
+        out.append(_one('kv', [['k', n], '=yes']))
+        out.append(_one('kv', ['X-Note=', ['a b ', n // 4], 'c']))
+        out.append(_one('n', [['A', n]]))
+        out.append(_one('n', ['A ', ['b ', n // 2], 'C']))
+        out.append(_one('n', [['é', n]]))
+        out.append(_one('n', [['7', n]]))
+        out.append(_one('n', ['Dr. ', ['(x) ', n // 4], 'Q.']))
+        out.append(_one('e', [['a', n], '@b.c']))
+        out.append(_one('e', ['a@', ['b.', n // 2], 'org']))
+        out.append(_one('e', [['7', n], '@', ['7', n]]))
+        out.append(_one('body', ['\n  * ', ['x ', n // 2], 'y\n']))
+        out.append(_one('body', ['\n  * closes: #', ['7', n], '\n    ', ['7', n], '\n']))
+        out.append(_one('body', ['  ', ['é漢', n // 2]]))
+    for k in (10, 100, 255, 256, 1000, 4000, 20000):
+        out.append(_one('d', [['unstable ', k], 'stable']))
+        out.append(_one('d', [['#', 'dist', k, ' '], 'END']))
+        out.append(_one('d', [['#', '', k, ' '], '0']))                         # all-digit distribution names
+        out.append(_one('d', [['#', 'dist', k, ' '], 'END'], blk=1, base=two))
+    for k in (3, 4, 5, 8, 16, 100, 255, 256, 1000, 5000):
+        out.append(_one('kv', [['#', 'k', k, '=v, '], 'last=1']))
+        out.append(_one('kv', [['#', 'X-Key-', k, '=value %s, ' % k], 'binary-only=yes']))
+        out.append(_one('kv', [['#', 'XS-F', k, '=yes, '], 'team-upload=yes'], base=dict(two, blocks=[dict(two['blocks'][0], c='(security fix)'), two['blocks'][1]])))
+    for k in (100, 255, 256, 1000, 1024, 4096, 5000, 10000):
+        out.append(_one('body', ['\n', ['#', '  * line ', k, '\n']]))
+        out.append(_one('body', [['#', '  * line ', k, '\n\n'], '    last']))   # a blank line after every change line
+        out.append(_one('body', ['\n', ['#', '    continuation ', k, ' é\n'], '  [ X ]\n  * end\n']))
+        out.append(_one('body', ['\n', ['#', '  * line ', k, '\n']], blk=1, base=two))
+        out.append(_one('body', ['\n  * first\n', ['\n', k], '  * last after %d blank lines\n' % k]))
+    for k in (50, 300, 1000):
+        out.append({'kind': 'big', 'base': two, 'grow': [], 'more': k, 'wl': 'big-matrix'})
+    for k in (50, 300):
+        out.append({'kind': 'big', 'base': two, 'grow': [[0, 'v', ['1.', ['7', 4301]]]], 'more': k, 'wl': 'big-matrix'})
+        out.append({'kind': 'big', 'base': two, 'grow': [[1, 'v', ['1.0-', ['7', 5000]]]], 'more': k, 'wl': 'big-matrix'})
+    # several big items in one heading
+    for n in (4301, 20000):
+        out.append({'kind': 'big', 'base': two, 'wl': 'big-matrix',
+                    'grow': [[0, 'p', ['a', ['b', n]]], [0, 'v', ['1.', ['7', n], '-', ['3', n]]], [0, 'd', [['sid ', n // 4], 'x']],
+                             [0, 'c', ['(', ['x', n], ')']], [0, 'kv', ['binary-only=', ['y', n]]], [0, 'n', [['A', n]]]]})
+    if wide:
+        for n in HUGE_POINTS:
+            out.append(_one('v', ['1.', ['7', n], '-', ['3', 19]]))
+            out.append(_one('v', ['1', ['.1', n // 2]], blk=1, base=two))
+            out.append(_one('p', ['a', ['b-', n // 2]]))
+            out.append(_one('d', [['#', 'd', n // 8, ' '], 'END']))
+            out.append(_one('c', ['(', ['word ', n // 5], 'end)']))
+            out.append(_one('kv', ['binary-only=', ['y', n], ', team-upload=yes']))
+            out.append(_one('kv', [['#', 'k', n // 16, '=v, '], 'last=1']))
+            out.append(_one('n', ['A ', ['b ', n // 2], 'C']))
+            out.append(_one('e', [['a', n], '@b.c']))
+            out.append(_one('body', ['\n  * ', ['x ', n // 2], 'y\n']))
+        for k in HUGE_LINES:
+            out.append(_one('body', ['\n', ['#', '  * line ', k, '\n']]))
+            out.append(_one('body', ['\n', ['#', '  * line ', k, '\n']], blk=1, base=two))
+        out.append({'kind': 'big', 'base': two, 'grow': [], 'more': 5000, 'wl': 'big-matrix'})
+    return out
+
+
+VUNITS = ('7', '9', '1', '0', '90', '123', '4', '8')
+PUNITS = ('b', 'ab', 'x-', 'lib.', '0', '7', 'a+', '-', '.', 'z9')
+DUNITS = ('unstable ', 'a.b ', 'X+y ', 'sid ', 'UNRELEASED ', '0 ', 'bookworm-backports ')
+CUNITS = ('x', 'ab ', 'é', '7', 'a;b ', 'k=v ', '(y) ', '#1: ')
+NUNITS = ('A', 'ab ', 'é', 'x.', '7', '(x) ', '李 ', "O'B-")
+LPREFIX = ('  * line ', '    more ', '   - item ', '  ', '  + ', '  * closes: #')
+
+
+def pick_size(r, points, top):
+    if r.random() < 0.7:
+        return max(1, r.choice(points) + r.choice([0, 0, -1, 1]))
+    return int(10 ** r.uniform(1.3, math.log10(top)))
+
+
+def gen_big_version(r, n):
+    k = r.random()
+    if k < 0.55:
+        rec = list(r.choice(version_recipes(n)))
+    else:
+        u = r.choice(VUNITS)
+        reps = max(1, n // len(u))
+        head = r.choice(['', '1.', '0.', '2:', '1:0.', '1~', '10+'])
+        tail = r.choice(['', '-1', '.5', '~rc1', '+dfsg-2', '-0ubuntu1', 'a'])
+        rec = [head, ['0', r.choice([0, 0, 1, 3])], [u, reps], tail]
+        if r.random() < 0.3:
+            rec += ['-', [r.choice(VUNITS), max(1, r.choice([n, n // 2, 19]))]] if '-' not in tail else []
+    return rec
+
+
+def gen_grow(r, field, wide):
+    pts = SIZE_POINTS_RANDOM + (SIZE_POINTS_WIDE if wide else ())
+    top = pts[-1]
+    n = pick_size(r, pts, top)
+    if field == 'v':
+        return gen_big_version(r, pick_size(r, DIGIT_POINTS + (100, 1000, 4298, 4302, 4400), 12000))
+    if field == 'p':
+        return [r.choice('abcxyz0129'), [r.choice(PUNITS), max(1, n // 2)], r.choice(['', '0', 'z'])]
+    if field == 'd':
+        if r.random() < 0.4:
+            return [[r.choice(['u', 'A.', 'b-', '9', 'x+']), n]]
+        k = max(2, n // 8)
+        if r.random() < 0.5:
+            return [[r.choice(DUNITS), k], 'stable']
+        return [['#', r.choice(['dist', '', 'D-', 'x.']), k, ' '], 'END']
+    if field == 'c':
+        return [r.choice(['(', '', '(HIGH for ']), [r.choice(CUNITS), max(1, n // 2)], r.choice([')', 'x', 'end)'])]
+    if field == 'kv':
+        k = r.random()
+        if k < 0.3:
+            return [r.choice(['binary-only=', 'team-upload=', 'X-Note=', 'k=']), [r.choice(['y', '7', 'a b ', 'é', 'x=']), n], 'z']
+        if k < 0.45:
+            return [[r.choice(['k', 'K-', 'x9', 'X-']), max(1, n // 2)], 'k=yes']
+        cnt = max(1, min(n // 8, 5000)) if r.random() < 0.7 else r.randint(3, 12)
+        return [['#', r.choice(['k', 'X-Key-', 'XS-F', 'team', 'a-']), cnt, r.choice(['=v, ', '=yes, ', '=a b, '])],
+                r.choice(['last=1', 'binary-only=yes', 'team-upload=yes'])]
+    if field == 'body':
+        lp = LINE_POINTS + (LINE_POINTS_WIDE if wide else ())
+        k = r.random()
+        if k < 0.35:
+            return ['\n  * ', [r.choice(['x ', '7', '漢', 'a: #b ']), max(1, n // 2)], 'y\n']
+        cnt = pick_size(r, lp, lp[-1])
+        sep = r.choice(['\n', '\n', '\n', '\n\n', ' x\n'])
+        rec = [r.choice(['\n', '', '\n\n']), ['#', r.choice(LPREFIX), cnt, sep]]
+        if sep == '\n\n' or r.random() < 0.3:
+            rec.append(r.choice(['    last', '  * end\n', '  [ X ]\n  * end']))
+        return rec
+    if field == 'n':
+        return [r.choice(['A', 'Dr. ', 'é', '7']), [r.choice(NUNITS), max(1, n // 2)], r.choice(['Z', 'Q.', '9', '(x)'])]
+    if field == 'e':
+        if r.random() < 0.5:
+            return [[r.choice(['a', '7', 'x.', 'é']), n], '@b.c']
+        return ['a@', [r.choice(['b.', '7', 'sub-']), max(1, n // 2)], 'org']
+    raise ValueError(field)
+
+
+def gen_big(r, wide):
+    nb = r.choice([1, 1, 2, 3])
+    blocks = [gen_block(r, wide) for _ in range(nb)]
+    for b in blocks[:-1]:
+        b['gap'] = r.choice([1, 1, 2])
+    base = {'kind': 'cl', 'lead': r.choice([0, 0, 1]), 'blocks': blocks}
+    for _try in range(20):
+        grow = []
+        used = set()
+        for _ in range(r.choice([1, 1, 1, 2])):
+            field = r.choice(['v', 'v', 'v', 'p', 'd', 'c', 'kv', 'body', 'n', 'e'])
+            blk = r.randrange(nb) if r.random() < 0.5 else 0
+            if (blk, field) in used:
+                continue
+            used.add((blk, field))
+            grow.append([blk, field, gen_grow(r, field, wide)])
+        case = {'kind': 'big', 'base': base, 'grow': grow, 'wl': 'big-random'}
+        if r.random() < 0.04:
+            case['more'] = r.choice([50, 100, 300])
+        if grow and big_problem(case) is None:
+            return case
+    return _one('v', ['1.', ['7', 4301]], wl='big-random')
+
+
+def shrink_big(case, key, budget=90):
+    """Smaller big case that still shows `key`: fewer recipes, one form, smallest counts (bisection)."""
+    left = [budget]
+
+    def fails(c):
+        if left[0] <= 0:
+            return False
+        left[0] -= 1
+        if big_problem(c) is not None:
+            return False
+        try:
+            return key in [k for k, _m in run_big(c)]
+        except Exception:
+            return False
+
+    case = {k: v for k, v in case.items() if k != 'matrix'}
+    if case.get('more'):
+        c = {k: v for k, v in case.items() if k != 'more'}
+        if c['grow'] and fails(c):
+            case = c
+    i = 0
+    while len(case['grow']) > 1 and i < len(case['grow']):
+        c = dict(case, grow=case['grow'][:i] + case['grow'][i + 1:])
+        if fails(c):
+            case = c
+        else:
+            i += 1
+    if not case.get('form'):
+        for f in ('str', 'lines', 'file', 'bytes'):
+            c = dict(case, form=f)
+            if fails(c):
+                case = c
+                break
+    simple = {'kind': 'cl', 'lead': 0, 'blocks': [dict(BASE)]}
+    if all(g[0] == 0 for g in case['grow']) and case['base'] != simple:
+        c = dict(case, base=simple)
+        if fails(c):
+            case = c
+    for gi in range(len(case['grow'])):
+        recipe = case['grow'][gi][2]
+        for si in range(len(recipe)):
+            seg = recipe[si]
+            if isinstance(seg, str):
+                continue
+            at = 1 if len(seg) == 2 else 2
+
+            def with_count(n):
+                nseg = list(seg)
+                nseg[at] = n
+                nrec = recipe[:si] + [nseg] + recipe[si + 1:]
+                ngrow = [list(g) for g in case['grow']]
+                ngrow[gi] = [case['grow'][gi][0], case['grow'][gi][1], nrec]
+                return dict(case, grow=ngrow)
+
+            lo, hi = 0, seg[at]       # invariant: hi fails; lo does not (or is untested)
+            if hi > 1 and fails(with_count(1)):
+                hi = 1
+            else:
+                lo = 1
+                while hi - lo > 1 and left[0] > 0:
+                    mid = (lo + hi) // 2
+                    if fails(with_count(mid)):
+                        hi = mid
+                    else:
+                        lo = mid
+            if hi != seg[at]:
+                case = with_count(hi)
+                recipe = case['grow'][gi][2]
+    return case
+
+
+# ---------------------------------------------------------------------------
+# HEADING key=value PAIRS BEYOND URGENCY (ordinary 'cl' models tagged 'wl': 'kv-matrix' | 'kv-random')
+
+KV_KEYS = ['team-upload', 'Team-Upload', 'TEAM-UPLOAD', 'binary-only', 'Binary-Only', 'source-only', 'qa-upload', 'nmu',
+           'lts', 'security', 'backport', 'upload', 'team', 'medium', 'low', 'high', 'X-Foo', 'x-foo', 'X-FOO',
+           'XS-Vcs-Git', 'XS-Team-Upload', 'xs-team-upload', 'XB-Tag', 'XC-Package-Type', 'XBS-Field', 'XSBC-Original-Maintainer',
+           'XCS-A', 'XBCS-All', 'X-', 'XS-', 'XB-', 'x', 'xs', 'X1', 'X-1', 'XS-1', '1x', 'a--b', '-a', 'a-', '--', '0-0', '00',
+           'closes', 'lp', 'urgency2', 'x-urgency', 'XS-Urgency', 'urgent', 'urgenc', 'urgency-', 'distribution', 'maintainer',
+           'date', 'version', 'key-with-many-hyphen-separated-words', 'UPPER', 'MiXeD-Case', 'k' * 64, 'a1-b2-c3']
+KV_VALUES = ['yes', 'no', 'Yes', 'NO', 'true', 'false', '1', '0', 'medium', 'low', 'high', 'y', 'n', 'maybe', 'yes please',
+             'a=b', 'urgency=high', 'x (comment)', '(yes)', 'yes;no', '1.0-1', 'https://example.org/x?y=z&a=b', 'é',
+             '#123', '"quoted"', "it's", '-', '=', '==x', 'a; b', 'unstable; urgency=low', 'yes.', 'YES', 'y e s', '✓',
+             'team-upload', 'binary-only=yes', '0.5', '~', 'x' * 200]
+KV_WORDS = ['team', 'upload', 'binary', 'only', 'source', 'qa', 'vcs', 'git', 'original', 'maintainer', 'tag', 'field',
+            'note', 'bug', 'origin', 'build', 'profile', 'a', 'b2', '0']
+
+
+def _kvm(kv, wl='kv-matrix', **kw):
+    b = dict(BASE, kv=[list(x) for x in kv])
+    b.update(kw)
+    return {'kind': 'cl', 'lead': 0, 'blocks': [b], 'wl': wl}
+
+
+def kv_matrix():
+    """Fixed key=value models (same for every seed and tier)."""
+    out = []
+    for i, k in enumerate(KV_KEYS):
+        v = ('yes', 'no', 'medium', '1')[i % 4]
+        out.append(_kvm([[k, v]]))                                                   # the only extra pair
+        out.append(_kvm([[k, v]], c='(security fix)', u='medium'))                   # after an urgency comment
+        if k.lower() != 'binary-only':
+            out.append(_kvm([['binary-only', 'yes'], [k, v]], u='HIGH'))             # second extra pair
+            out.append(_kvm([[k, v], ['Binary-Only', 'yes'], ['zz-last', 'x y']]))   # first of three
+    for v in KV_VALUES:
+        for k in ('team-upload', 'X-Note', 'binary-only'):
+            out.append(_kvm([[k, v]]))
+        out.append(_kvm([['a', '1'], ['X-Mid', v], ['z', '2']], c='(x)'))
+    for u in URGENCIES:
+        for f in (str.lower, str.upper, str.capitalize):
+            out.append(_kvm([['team-upload', 'yes']], u=f(u)))
+            out.append(_kvm([['binary-only', 'yes'], ['team-upload', 'yes']], u=f(u), c='(because)'))
+    keys = ['team-upload', 'binary-only', 'X-Foo', 'XS-Vcs-Git', 'source-only', 'k', 'XB-Tag', 'a-1']
+    for n in range(1, 9):
+        out.append(_kvm([[k, 'v%d' % i] for i, k in enumerate(keys[:n])]))
+        out.append(_kvm([[k, 'v%d' % i] for i, k in enumerate(reversed(keys[:n]))], c='(n=%d)' % n))
+        out.append(_kvm([[k, 'yes'] for k in sorted(keys[:n])], u='emergency'))
+        out.append(_kvm([[k, 'yes'] for k in sorted(keys[:n], key=lambda x: x.lower(), reverse=True)]))
+    # pairs in every block of a multi-block changelog (a different set per block)
+    b1 = dict(BASE, v='3.0-1', gap=1, kv=[['team-upload', 'yes']], u='medium')
+    b2 = dict(BASE, v='2.0-1', gap=2, kv=[['binary-only', 'yes'], ['X-Foo', 'a b']], c='(HIGH for foo)')
+    b3 = dict(BASE, v='1.0-1', kv=[], d=['stable'])
+    b4 = dict(BASE, v='0.9-1', kv=[['team-upload', 'no'], ['XS-Vcs-Git', 'https://example.org/x.git']])
+    for order in ([b1, b2, b3], [b3, b1, b2], [b2, b4, b1], [b4, b3, b2, b1]):
+        bl = [dict(b) for b in order]
+        for b in bl[:-1]:
+            b['gap'] = b.get('gap') or 1
+        bl[-1]['gap'] = 0
+        out.append({'kind': 'cl', 'lead': 0, 'blocks': bl, 'wl': 'kv-matrix'})
+    return out
+
+
+def gen_kv_key(r):
+    k = r.random()
+    if k < 0.5:
+        return r.choice(KV_KEYS)
+    if k < 0.75:
+        pre = r.choice(['X-', 'XS-', 'XB-', 'XC-', 'XBS-', 'XSBC-', 'x-', 'xs-', 'Xs-'])
+        words = [r.choice(KV_WORDS) for _ in range(r.randint(1, 3))]
+        return pre + '-'.join(w.capitalize() if r.random() < 0.6 else w for w in words)
+    if k < 0.9:
+        words = [r.choice(KV_WORDS) for _ in range(r.randint(1, 3))]
+        return gen_case_mix(r, '-'.join(words))
+    return ''.join(r.choice('abzABZ019-') for _ in range(r.randint(1, 12)))
+
+
+def gen_kv_pairs(r, n):
+    out, seen = [], set(['urgency'])
+    for _ in range(n):
+        for _try in range(10):
+            k = gen_kv_key(r)
+            if k.lower() not in seen:
+                break
+        else:
+            continue
+        seen.add(k.lower())
+        q = r.random()
+        if q < 0.6:
+            v = r.choice(KV_VALUES)
+        elif q < 0.8:
+            v = r.choice(['yes', 'no'])
+        else:
+            v = gen_words(r, 'abXY01()#:;=.é-~+/', 3)
+        out.append([k, v])
+    return out
+
+
+def gen_kv_model(r, wide):
+    nb = r.choice([1, 1, 1, 2, 3])
+    blocks = [gen_block(r, wide) for _ in range(nb)]
+    for b in blocks[:-1]:
+        b['gap'] = r.choice([1, 1, 2])
+    for i, b in enumerate(blocks):
+        if i == 0 or r.random() < 0.6:
+            b['kv'] = gen_kv_pairs(r, r.choice([1, 1, 1, 2, 2, 3, 3, 4, 5, 6]))
+        if r.random() < 0.35:
+            b['c'] = gen_comment(r)
+    return {'kind': 'cl', 'lead': r.choice([0, 0, 1]), 'blocks': blocks, 'wl': 'kv-random'}
+
+
+def kv_style(k):
+    kl = k.lower()
+    if re.match(r'x[bcs]+-', kl):
+        return 'X[BCS]+-extension'
+    if kl.startswith('x-'):
+        return 'X-extension'
+    if kl in ('team-upload', 'binary-only', 'source-only', 'qa-upload'):
+        return kl
+    if 'urgen' in kl:
+        return 'looks-like-urgency'
+    if '-' in k:
+        return 'hyphenated-word'
+    return 'plain-word'
+
+
+def note_kv(ctx, case):
+    c = ctx.count
+    c('kv:case')
+    c('kv:case:' + case['wl'])
+    for b in case['blocks']:
+        kv = b.get('kv') or []
+        if not kv:
+            continue
+        c('kv:heading-with-pairs')
+        c('kv:pairs-in-heading:%s' % (len(kv) if len(kv) < 6 else '6+'))
+        if b.get('c'):
+            c('kv:after-urgency-comment')
+        for k, v in kv:
+            c('kv:key-style:' + kv_style(k))
+            if k != k.lower():
+                c('kv:key-with-upper-case')
+            if v.lower() in ('yes', 'no'):
+                c('kv:value-yes-no')
+            if '=' in v:
+                c('kv:value-contains-equals')
+            if ' ' in v:
+                c('kv:value-contains-blank')
+
+
+# ---------------------------------------------------------------------------
 # shrinking witnesses of the second-use classes (keeps the mechanism key)
 
 def _simpler_model(m):
@@ -1930,6 +2721,8 @@ def _versions_of(case):
         return [b['v'] for st in case['steps'] for b in st['m']['blocks']]
     if kind == 'handout':
         return [b['v'] for mm in [case['m']] + list(case.get('later', [])) for b in mm['blocks']]
+    if kind == 'big':
+        return [b['v'] for b in case['base']['blocks']]
     return []
 
 
@@ -1979,6 +2772,17 @@ def report(ctx, case, key, msg):
         text = render(small)[0]
         ctx.violation(key, '%s | witness text: %s' % (msg, _r(text, 700)), small)
         return
+    if kind == 'big':
+        small = shrink_big(plain, key)
+        for k2, m2 in run_big(dict(small, form=None) if small.get('form') else small):
+            if k2 == key:
+                msg = m2              # every form that shows it on the shrunk witness
+        sizes = ', '.join('%s of block %d: %s' % (g[1], g[0], '+'.join(
+            _r(seg, 40) if isinstance(seg, str) else '%s x %d' % (_r(seg[0], 30), seg[1]) if len(seg) == 2
+            else '%s<i>%s for i < %d' % (_r(seg[1], 30), _r(seg[3], 30), seg[2]) for seg in g[2])) for g in small['grow'])
+        ctx.violation(key, '%s | smallest sizes still showing it (recipes shrunk by bisection): %s%s' % (
+            msg, sizes or '-', ', %d further blocks' % small['more'] if small.get('more') else ''), small)
+        return
     if kind == 'seq' or SHRINK_BUDGET[0] <= 0:
         small = plain
     else:
@@ -2010,9 +2814,15 @@ def run_case(ctx, case):
     if kind == 'cl':
         if case.get('matrix'):
             ctx.count('matrix')
+        if str(case.get('wl', '')).startswith('kv-'):
+            note_kv(ctx, case)
+            ctx.mon('M.kv', stats.get('M', 0))
         note_features(ctx, case)
         if is_nontrivial(case):
             ctx.nontrivial(case)
+    elif kind == 'big':
+        ctx.count('wl:' + str(case.get('wl', 'big')))
+        ctx.nontrivial(case)
     else:
         if case.get('matrix'):
             ctx.count('matrix:' + kind)
